@@ -298,7 +298,7 @@ class StubFTPClient:
         pass
 
 
-def build_ftp(client, filters=None, glob=True, table=None):
+def build_ftp(client, filters=None, glob=True, table=None, preserve_permissions=False):
     from wpull.processor.ftp import FTPProcessor, FTPProcessorFetchParams
     from wpull.processor.rule import FetchRule, ResultRule
     from wpull.writer import NullWriter
@@ -306,8 +306,12 @@ def build_ftp(client, filters=None, glob=True, table=None):
     import io
     import wpull.body
     import wpull.processor.ftp as PF
-    wpull.body.new_temp_file = lambda directory=None, hint='': io.BytesIO()
+    class _Named(io.BytesIO):
+        name = 'tmp-download'
+    wpull.body.new_temp_file = lambda directory=None, hint='': _Named()
     PF.tempfile = types.SimpleNamespace(NamedTemporaryFile=lambda **k: io.BytesIO())
+    import os as _os
+    PF.os = types.SimpleNamespace(chmod=lambda path, mode: None, symlink=lambda a, b: None, path=_os.path)
     table = table or StubTable()
     f = Factory()
     app = types.SimpleNamespace(factory=f, root_path='.', args=None)
@@ -315,6 +319,6 @@ def build_ftp(client, filters=None, glob=True, table=None):
     f['FileWriter'] = NullWriter()
     f['FetchRule'] = FetchRule(url_filter=F.DemuxURLFilter(filters) if filters is not None else None)
     f['ResultRule'] = ResultRule(waiter=LinearWaiter(wait=0, max_wait=0), statistics=StubStatistics())
-    proc = FTPProcessor(client, FTPProcessorFetchParams(glob=glob))
+    proc = FTPProcessor(client, FTPProcessorFetchParams(glob=glob, preserve_permissions=preserve_permissions))
     proc._listing_cache = {}      # LRUCache reads time.time() (symbolic under CrossHair); a dict has the same mapping interface
     return types.SimpleNamespace(app=app, table=table, proc=proc, factory=f, client=client)
